@@ -6,6 +6,7 @@ INVARIANT AndBindsTighter
 INVARIANT Occurs
 INVARIANT Groups
 INVARIANT ChainDocumented
+INVARIANT NegativeExpr
 INVARIANT Balanced
 INVARIANT NoBlankBeforeBracket
 INVARIANT NoF9Shape
